@@ -84,6 +84,41 @@ pub fn gen_exchange(r: &mut Rng, id: u64) -> Exchange {
         let (q, p) = (scenario::http1_request(r, id), scenario::http1_response(r, id));
         (h1_variant(r, q), h1_variant(r, p))
     };
+    let (req, res) = if h2 && r.chance(1, 3) {
+        // several streams: the client opens 1 then 3; the server answers stream 3 before stream 1
+        // (legal).  What is reported is the first header block in byte order, however many of the
+        // later frames have arrived when it completes.
+        fn frame(t: u8, fl: u8, sid: u32, payload: &[u8]) -> Vec<u8> {
+            let mut f = vec![(payload.len() >> 16) as u8, (payload.len() >> 8) as u8, payload.len() as u8, t, fl];
+            f.extend_from_slice(&sid.to_be_bytes());
+            f.extend_from_slice(payload);
+            f
+        }
+        fn lit(name: &str, value: &str) -> Vec<u8> {
+            let mut b = vec![0x00, name.len() as u8];
+            b.extend_from_slice(name.as_bytes());
+            b.push(value.len() as u8);
+            b.extend_from_slice(value.as_bytes());
+            b
+        }
+        let mut req2 = req.clone();
+        let mut b = vec![0x82, 0x87, 0x84];
+        b.extend(lit(":authority", &format!("second{id}.example")));
+        b.extend(lit("user-agent", "second-stream/1.0"));
+        req2.extend(frame(1, 0x05, 3, &b));
+        let mut res2 = frame(4, 0, 0, &[]);
+        let mut first = vec![0x8d]; // :status 404
+        first.extend(lit("server", "answers-stream-3-first"));
+        first.extend(lit("x-conn-id", &id.to_string()));
+        res2.extend(frame(1, 0x04, 3, &first));
+        let mut second = vec![0x88]; // :status 200
+        second.extend(lit("server", "stream-1-later"));
+        res2.extend(frame(1, 0x04, 1, &second));
+        res2.extend(frame(0, 0x01, 1, b"body of stream 1"));
+        (req2, res2)
+    } else {
+        (req, res)
+    };
     let (rq, rs) = if h2 { (head_end_h2(&req, true), head_end_h2(&res, false)) } else { (head_end_h1(&req), head_end_h1(&res)) };
     let v6 = r.chance(1, 5);
     Exchange {
